@@ -105,7 +105,8 @@ class PersistentProcessWorker(PersistentWorker, ProcessWorker):
         if self._cleaned_up:
             return
 
-        self._results_pipe.child_end.put((self._counter, False, None, self.id))
+        # _counter does not exist if the child is terminated before it could initialize itself
+        self._results_pipe.child_end.put((getattr(self, '_counter', 0), False, None, self.id))
         self._results_pipe.child_end.close()
         self._args_pipe.child_end.close()
         self._cleaned_up = True
